@@ -3,7 +3,7 @@ schedule of pipeline.py."""
 from symx.api import harness
 from harness import pipeline as P, pipeline_oracles as O
 
-PARAMS = [(proto, tr) for proto in ('json', 'xml', 'soap11', 'http-json') for tr in ('wsgi-chunked', 'wsgi-unchunked')]
+PARAMS = [(proto, tr) for proto in ('json', 'xml', 'soap11', 'http-json', 'json-jsonp') for tr in ('wsgi-chunked', 'wsgi-unchunked')]
 
 
 @harness('C13', params=PARAMS, label=lambda p: '%s %s' % p,
@@ -17,7 +17,7 @@ def wsgi_protocol(sx, p):
     context closed exactly once and not before the body has been handed over"""
     proto, transport = p
     sched, rec = P.run_scenario(sx, proto, transport)
-    if sched['stage'] == 'unserializable' and P.out_of(proto) == 'json':
+    if sched['stage'] == 'unserializable' and P.out_of(proto) in ('json', 'jsonp'):
         sx.outside('lazily serialising protocols fail while the body is iterated; outside the stated schedule')
     problems = O.check_wsgi(sched, rec, allow_eager_close=True)
     sx.observe('problems', problems)
@@ -32,7 +32,7 @@ def wsgi_context_lifetime(sx, p):
     """the request context is not closed before the response body has been handed over"""
     proto, transport = p
     sched, rec = P.run_scenario(sx, proto, transport)
-    if sched['stage'] == 'unserializable' and P.out_of(proto) == 'json':
+    if sched['stage'] == 'unserializable' and P.out_of(proto) in ('json', 'jsonp'):
         sx.outside('lazily serialising protocols fail while the body is iterated; outside the stated schedule')
     problems = [x for x in O.check_wsgi(sched, rec) if x.startswith('context closed after')]
     sx.observe('problems', problems)
